@@ -148,6 +148,8 @@ _PURE_BUILTINS: Dict[str, Callable[..., Any]] = {
     "all": all,
     "reversed": reversed,
     "sum": sum,
+    "ord": ord,
+    "chr": chr,
 }
 
 _PURE_STR_METHODS = {
